@@ -20,7 +20,22 @@ pub fn exec_case(reset: &Value) -> Vec<Value> {
     let kn = knobs(&mut rng);
     let (pj, bp) = cli::materialize(&dir, &id, &mut rng, &kn, "exec");
     let all = cli::ALL_MODULES.join(",");
-    let mut evs = vec![json!({"ev": "reset", "gen_seed": seed, "dir": dir, "id": id, "runs": runs})];
+    // Search heuristic only (never a verdict): print the optimised IR (`--debug ir-opt`, exits before any analysis) in a few
+    // fresh processes.  An input whose intermediate IR already depends on the hash seed is where an order dependence can
+    // reach the warnings, so it gets `boost` times as many full runs; the property is still judged on the warning output.
+    let probes = reset["ir_probes"].as_u64().unwrap_or(0);
+    let mut ir_digests: Vec<u64> = Vec::new();
+    for _ in 0..probes {
+        let args: Vec<String> = vec!["--pcode-raw".into(), pj.clone(), "--config".into(), cli::config_path(false), "--debug".into(), "ir-opt".into(), bp.clone()];
+        let run = cli::run_cli(&args, 60);
+        ir_digests.push(cli::fxhash(&run.stdout));
+    }
+    ir_digests.sort_unstable();
+    ir_digests.dedup();
+    let ir_unstable = ir_digests.len() > 1;
+    let runs = if ir_unstable { runs * reset["boost"].as_u64().unwrap_or(1) } else { runs };
+    let mut evs = vec![json!({"ev": "reset", "gen_seed": seed, "dir": dir, "id": id, "runs": reset["runs"], "ir_probes": probes,
+                              "boost": reset["boost"], "ir_distinct": ir_digests.len(), "runs_done": runs})];
     for r in 0..runs {
         // odd runs give the checks in reverse order: check ordering must not matter either
         let sel = if r % 2 == 0 { all.clone() } else { cli::ALL_MODULES.iter().rev().cloned().collect::<Vec<_>>().join(",") };
@@ -40,10 +55,10 @@ pub fn replay(run: &[Value], _sub: &str) -> Vec<Value> {
 
 pub fn gen(out: &mut Out, _sub: &str) {
     let mut rng = Rng::new(out.seed ^ 0xC23);
-    let n = out.size(64, 400);
-    let runs = out.size(10, 16);
+    let n = out.size(160, 1200);
+    let runs = out.size(8, 16);
     let dir = std::env::var("VERIF_SCRATCH").unwrap_or_else(|_| "/verif/.build/cli_inputs".to_string());
-    let inputs: Vec<Value> = (0..n).map(|i| json!({"ev": "reset", "gen_seed": rng.next(), "dir": dir, "id": format!("c23_{}", i), "runs": runs})).collect();
+    let inputs: Vec<Value> = (0..n).map(|i| json!({"ev": "reset", "gen_seed": rng.next(), "dir": dir, "id": format!("c23_{}", i), "runs": runs, "ir_probes": 6, "boost": 8})).collect();
     let cases = crate::par::map(inputs, 8, |inp| exec_case(&inp));
     for evs in cases {
         let nt = evs.len() > 1 && evs[1]["warnings"].as_array().map(|a| a.len() >= 4).unwrap_or(false);
